@@ -588,7 +588,8 @@ class C15(Base):
         "own calls; thread-level pre-emption inside a call is engine E3 (8% "
         "of quick and 30% of thorough runs: random hand-overs and whole-call "
         "excursions at line events; 3% / 5% of runs: pinned sweeps, one "
-        "world per line k = 1..20 of a constructor plus 8 drawn lines of "
+        "world per line k = 1..20 of a constructor plus 8 (thorough: 24) "
+        "drawn lines of "
         "the task's life)",
     ]
     helper = None
@@ -678,7 +679,7 @@ class C15(Base):
                 [0, "ctor", k, "one" if k % 2 else "all"]]
                for k in range(1, 21)]
         import math
-        for _ in range(8):
+        for _ in range(8 if tier == "quick" else 24):
             # the other task's whole life at a drawn line of this one's
             k = int(math.exp(rng.uniform(math.log(20), math.log(6000))))
             ops.append(["e3", seed, tasks, 0, 0, 0, [0, "any", k, "all"]])
